@@ -10,7 +10,8 @@
      * the iteration is complete when every replica of both sides has sent `FAR`;
      * at the end an incomplete iteration is completed by `[FAR]` batches of the missing replicas (left
        replicas ascending, then right), then every replica (left ascending, then right) sends `[TERM]`.
-  outputs: one line per element returned by `next()` (the protocol's timeout `FlushBatch`es excluded):
+  outputs: one line per element returned by `next()` (the protocol's timeout `FlushBatch`es excluded, but not
+     the frontier announcement `Start` emits right before such a `FlushBatch`):
      `<u> <elem>` where `u` is the index of the sent batch that produced it; pairs are `(l,r)`.
      A panic replaces the whole output by `panic:<class>`.
 -/
@@ -94,6 +95,11 @@ def runModel (nL nR : Nat) (sends : List Send) : List String :=
           let (f1, o) := if sd.isLeft then st.1.stepElem (β := Val) true sd.replica Bin.left e
                          else st.1.stepElem (α := Val) false sd.replica Bin.right e
           (f1, st.2 ++ o)) (f, [])
+      -- the protocol: after the batch the receive times out once (the harness pulls until that `FlushBatch`,
+      -- which it does not print; a pending frontier announcement comes out right before it)
+      let (f', bins) :=
+        if bins.any Elem.isTerm then (f', bins)
+        else let (f2, o) := f'.timeout (α := Val) (β := Val); (f2, bins ++ o)
       let (s', outs) := bins.foldl (fun (st : Zip.State Val Val × List (Elem (Val × Val))) b =>
           let (s1, o) := Zip.step st.1 b
           (s1, st.2 ++ o)) (s, [])
